@@ -5,8 +5,10 @@ package zzverif
 import (
 	"fmt"
 	"regexp"
+	"strconv"
 	"strings"
 	"testing"
+	"unicode"
 
 	"github.com/verily-src/fhirpath-go/fhirpath/system"
 )
@@ -63,6 +65,17 @@ func c13Gen(s Src) c13Case {
 	}
 	if s.Prob(20) {
 		b = []rune(s.Str(c13DateAlpha, 0, 8))
+	}
+	if s.Prob(20) {
+		// another casing: per letter upper, lower or unchanged ('tRuE', 'YeS', '5 DAYS', '2020-01-01t10:00:00z')
+		for i, r := range b {
+			switch s.Intn(3) {
+			case 0:
+				b[i] = unicode.ToUpper(r)
+			case 1:
+				b[i] = unicode.ToLower(r)
+			}
+		}
 	}
 	return c13Case{X: sv(string(b)), T: pickOne(s, c13Targets)}
 }
@@ -380,12 +393,84 @@ func c13Run(ctx *Ctx, c c13Case) {
 	}
 }
 
+// --- toQuantity(unit) / convertsToQuantity(unit) ----------------------------------------
+
+type c13UnitCase struct {
+	X    Val    `json:"x"`
+	Unit string `json:"unit"` // the unit argument (a FHIRPath string literal is built from it)
+}
+
+var c13Units = []string{"mg", "kg", "days", "day", "year", "years", "1", "kg/m2", "10*3/uL", "mm[Hg]", "%", "'mg'", "'kg/m2'", "m g", "", " ", "µg", "Mg"}
+
+func c13GenUnit(s Src) c13UnitCase {
+	var x Val
+	switch s.Intn(6) {
+	case 0:
+		x = iv(int64(pickOne(s, []int32{0, 1, 5, -3, 2147483647, s.Int32()})))
+	case 1:
+		x = dv(strconv.Itoa(s.Range(-99, 99)) + "." + s.Str(digits, 1, 6))
+	case 2:
+		x = pickOne(s, []Val{bv(true), bv(false), qv("5", "mg"), qv("1", "days"), qv("2.5", "kg/m2"), dateV("2020-01-01"), timeV("10:00")})
+	case 3:
+		x = sv(pickOne(s, []string{"5", "5 mg", "5 'mg'", "5 days", "1.5", "abc", "", "5 'kg/m2'", "-3 'mg'"}))
+	default:
+		x = pickOne(s, poolAll)
+	}
+	return c13UnitCase{X: x, Unit: pickOne(s, c13Units)}
+}
+
+func c13RunUnit(ctx *Ctx, c c13UnitCase) {
+	if _, err := c.X.build(); err != nil {
+		return
+	}
+	vars := map[string]any{"x": c.X.mustBuild()}
+	u := quoteFP(c.Unit)
+	outTo := evalWith("%x.toQuantity("+u+")", nil, vars)
+	outConv := evalWith("%x.convertsToQuantity("+u+")", nil, vars)
+	kind := c.X.K
+	if strings.HasPrefix(kind, "msg.") {
+		kind = "complex"
+	}
+	ctx.Eval(c.X.String()+"|"+c.Unit, true, "cell:unit-argument", "unit:"+c13Shape(c.Unit))
+	desc := fmt.Sprintf("x=%v unit=%q: toQuantity → %s ; convertsToQuantity → %s", c.X, c.Unit, outTo, outConv)
+	if outTo.Panic != "" || outConv.Panic != "" {
+		ctx.Fail("conv "+kind+"→Quantity(unit): panic@"+outTo.Panic+outConv.Panic, desc)
+		return
+	}
+	if outTo.CompileErr != nil || outConv.CompileErr != nil {
+		ctx.Fail("conv: toQuantity(unit) does not compile", desc)
+		return
+	}
+	if outTo.Err != nil || outConv.Err != nil {
+		// an invalid unit argument may be refused outright; then both must refuse or convertsTo answers false
+		if outConv.Err == nil && renderColl(outConv.Coll) == "[Boolean:true]" {
+			ctx.Fail("conv "+kind+"→Quantity(unit): convertsToQuantity(unit) = true but toQuantity(unit) fails", desc)
+		}
+		ctx.Count("unit_argument_refused")
+		return
+	}
+	conv := renderColl(outConv.Coll)
+	switch {
+	case len(outTo.Coll) == 0 && conv == "[Boolean:true]":
+		ctx.Fail("conv "+kind+"→Quantity(unit): convertsToQuantity(unit) = true but toQuantity(unit) is empty", desc)
+	case len(outTo.Coll) == 1 && conv != "[Boolean:true]":
+		ctx.Fail("conv "+kind+"→Quantity(unit): toQuantity(unit) yields a value but convertsToQuantity(unit) is not true", desc)
+	case len(outTo.Coll) == 1:
+		if _, ok := outTo.Coll[0].(system.Quantity); !ok {
+			ctx.Fail("conv "+kind+"→Quantity(unit): toQuantity(unit) yields a "+c13GoType(outTo.Coll[0]), desc)
+		}
+	case len(outTo.Coll) > 1:
+		ctx.Fail("conv "+kind+"→Quantity(unit): toQuantity(unit) yields several items", desc)
+	}
+}
+
 func TestC13(t *testing.T) {
 	r := newRec("C13",
-		"exhaustive: every item of the value pool (every System type, precision and boundary; FHIR primitive and complex elements) and a list of valid/near-valid string renderings × the eight targets {Boolean, Integer, Decimal, String, Date, DateTime, Time, Quantity}, each through %x.toT(), %x.convertsToT(), %x.toT().toT(), %x.toT() is System.T and (x of type T) %x.toString().toT() = %x; plus rapid-mutated strings (0..2 edits of a valid rendering, or random strings over the lexical alphabet); non-trivial = the item is not already of type T, or is a string; distinct = FNV-64 of (item, target)",
+		"exhaustive: every item of the value pool (every System type, precision and boundary; FHIR primitive and complex elements) and a list of valid/near-valid string renderings × the eight targets {Boolean, Integer, Decimal, String, Date, DateTime, Time, Quantity}, each through %x.toT(), %x.convertsToT(), %x.toT().toT(), %x.toT() is System.T and (x of type T) %x.toString().toT() = %x; plus toQuantity(u) / convertsToQuantity(u) with a unit argument (UCUM codes with and without non-letters, calendar words, quoted, empty, blank) on generated numbers, Booleans, quantities and strings: convertsToQuantity(u) is true exactly when toQuantity(u) yields one Quantity; plus rapid-mutated strings (0..2 edits of a valid rendering, or random strings over the lexical alphabet); non-trivial = the item is not already of type T, or is a string; distinct = FNV-64 of (item, target)",
 		"the conversion table (N1 §5.5) is asserted only where unambiguous: identity, type-level rows, canonical string renderings, lexically foreign strings; String→Integer and String→Decimal follow the N1 regular expressions exactly (so '1e3', '.5', '1.' are not convertible); near-valid DateTime/Time/Quantity strings ('T10:00', '5 mg') are checked by the relational laws only")
 	runProperty(t, r,
 		Stage[c13Case]{Name: "pool", Enum: c13Enum, Run: c13Run},
 		Stage[c13Case]{Name: "strings", Gen: c13Gen, Run: c13Run, N: pick(15000, 150000)},
+		Stage[c13UnitCase]{Name: "unit-argument", Gen: c13GenUnit, Run: c13RunUnit, N: pick(5000, 100000)},
 	)
 }
